@@ -38,7 +38,7 @@ INVALID_OUTER = ['1x.a.b', 'x-y.b', '9.c.a.b', 'a b.a']
 
 def bound(tier):
   return ('A: %d names, depth<=%d, queries len<=%d over {a,b,c}; B: full spelling x API product' %
-          ((len(POOL_Q), 4, 3) if tier == 'quick' else (len(POOL_T), 6, 4)))
+          ((len(POOL_Q), 4, 3) if tier == 'quick' else (len(POOL_T), 5, 4)))
 
 
 def queries(maxlen):
@@ -293,7 +293,7 @@ def replay_hist(hist, pool, qs):
 def run_a(ctx, res):
   quick = ctx.quick
   pool = POOL_Q if quick else POOL_T
-  depth = 4 if quick else 6
+  depth = 4 if quick else 5
   qs = queries(3 if quick else 4)
   _CFG.update(pool=pool, qs=qs)
   ctx.close()  # workers must be forked after _CFG is set
